@@ -3,7 +3,11 @@
  * dynamic_log_level); its FormatBuffer / named_args are not allocated.  std::string temporaries are inert.
  * Used where neither message text nor strings are the subject of the property. */
 #include "vll_rt.h"
-void _ZN5quill2v96detail12TransitEventC2Ev(void* t){ memset(t, 0, 56); ((uint8_t*)t)[48] = 10; /* LogLevel::None */ }
-void _ZN5quill2v96detail12TransitEventC2EOS2_(void* t, void* o){ memcpy(t, o, 56); ((uint64_t*)o)[3] = 0; ((uint64_t*)o)[4] = 0; }
-void* _ZN5quill2v96detail12TransitEventaSEOS2_(void* t, void* o){ if (t != o) { memcpy(t, o, 56); ((uint64_t*)o)[3] = 0; ((uint64_t*)o)[4] = 0; } return t; }
+/* formatted_msg of every modelled event points at one shared, always-empty libfmt buffer (rendering is stubbed):
+ * layout of fmt::detail::buffer<char> = { char* ptr; size_t size; size_t capacity; grow fn } */
+static struct { char* ptr; uint64_t size; uint64_t cap; void* grow; char store[8]; } vll_fmtbuf;
+static void* fmtbuf(void){ vll_fmtbuf.ptr = vll_fmtbuf.store; return &vll_fmtbuf; }
+void _ZN5quill2v96detail12TransitEventC2Ev(void* t){ memset(t, 0, 56); ((uint8_t*)t)[48] = 10; /* LogLevel::None */ ((void**)t)[3] = fmtbuf(); }
+void _ZN5quill2v96detail12TransitEventC2EOS2_(void* t, void* o){ memcpy(t, o, 56); ((uint64_t*)o)[4] = 0; }
+void* _ZN5quill2v96detail12TransitEventaSEOS2_(void* t, void* o){ if (t != o) { memcpy(t, o, 56); ((uint64_t*)o)[4] = 0; } return t; }
 void _ZN5quill2v96detail12TransitEventD2Ev(void* t){ }
